@@ -13,7 +13,14 @@ from . import common
 from .c05 import check_counter, check_first_def, check_single_exit
 
 
-def run(ctx: Ctx):
+def hybrid_table(ctx: Ctx, rule: str, declare: bool = True):
+    """hybrid path table = Euler rows of explicit_euler + RL rows of generalized_rush_larsen, STIFF := the state's own
+    name in the given list; returns (model, alias table function, models) or None when it could not be built"""
+
+    def decl(rid, text, floor=0):
+        if declare:
+            ctx.rule(rid, text, floor=floor)
+
     sm = ctx.sm
     models = common.scheme_models(ctx)
     gs, table = common.alias_table(ctx)
@@ -21,27 +28,26 @@ def run(ctx: Ctx):
     name = table.get("hybrid_rush_larsen")
     errs = ctx.__dict__.get("_scheme_model_errors", {})
     if name in errs:
-        ctx.rule("R07.a", "hybrid path table", floor=1)
-        common.check_single_pass(ctx, "R07.a", name)
-        ctx.undecided("R07.a", gs.key("path-table"), f"the path table of {name} is not built: {errs[name][:120]}")
-        return
+        decl(rule, "hybrid path table", floor=1)
+        common.check_single_pass(ctx, rule, name)
+        ctx.undecided(rule, gs.key("path-table"), f"the path table of {name} is not built: {errs[name][:120]}")
+        return None
     if name not in models:
-        ctx.rule("R07.a", "hybrid path table", floor=1)
-        ctx.fail("R07.a", gs.key("alias::hybrid_rush_larsen"), f"get_scheme maps 'hybrid_rush_larsen' to {name!r}, which is not a scheme builder", gs.where())
-        return
+        decl(rule, "hybrid path table", floor=1)
+        ctx.fail(rule, gs.key("alias::hybrid_rush_larsen"), f"get_scheme maps 'hybrid_rush_larsen' to {name!r}, which is not a scheme builder", gs.where())
+        return None
     m = models[name]
     f = m.func
 
-    ctx.rule(
-        "R07.a",
+    decl(rule,
         "hybrid path table = {not STIFF or DIFF_ZERO -> the Euler term of explicit_euler; STIFF and not DIFF_ZERO -> the two terms of generalized_rush_larsen}, "
         "with STIFF := X.state.name in set(stiff_states) and None -> empty",
         floor=8,
     )
-    check_first_def(ctx, "R07.a", m)
-    check_counter(ctx, "R07.a", m)
-    check_single_exit(ctx, "R07.a", m)
-    common.check_single_pass(ctx, "R07.a", name)
+    check_first_def(ctx, rule, m)
+    check_counter(ctx, rule, m)
+    check_single_exit(ctx, rule, m)
+    common.check_single_pass(ctx, rule, name)
     # the stiff set
     stiff_sets = set()
     for r in m.rows:
@@ -49,14 +55,14 @@ def run(ctx: Ctx):
             if a.startswith("STIFF["):
                 stiff_sets.add(a[6:-1])
             elif a.startswith("IN["):
-                ctx.fail("R07.a", f.key(f"membership::{a}"), f"stiffness is decided by `{a[3:-1]}`, not by membership of the *state's* name in the stiff set", f.where(m.loop))
-    ctx.check(len(stiff_sets) == 1, "R07.a", f.key("stiff-predicate"), f"stiffness test is X.state.name in {sorted(stiff_sets)}", f"expected exactly one stiffness predicate `X.state.name in <set>`, found {sorted(stiff_sets)}", f.where(m.loop))
+                ctx.fail(rule, f.key(f"membership::{a}"), f"stiffness is decided by `{a[3:-1]}`, not by membership of the *state's* name in the stiff set", f.where(m.loop))
+    ctx.check(len(stiff_sets) == 1, rule, f.key("stiff-predicate"), f"stiffness test is X.state.name in {sorted(stiff_sets)}", f"expected exactly one stiffness predicate `X.state.name in <set>`, found {sorted(stiff_sets)}", f.where(m.loop))
     if len(stiff_sets) == 1 and getattr(m, "from_av", False):
         # read from the builder's value: the test is `X.state.name in <S>`; S must be the stiff_states argument
         # (through set(...) or not) and None must mean "no stiff state"
         sname = stiff_sets.pop()
-        ctx.check(sname == "stiff_states", "R07.a", f.key("stiff-set-source"), "the stiff set is the stiff_states argument", f"stiffness is membership of the state's name in `{sname}`, not in the stiff_states argument", f.where())
-        ctx.check(bool(m.stiff_none_ok), "R07.a", f.key("none-means-empty"), "stiff_states=None means no stiff state", "stiff_states=None is not mapped to the empty collection before membership is tested", f.where())
+        ctx.check(sname == "stiff_states", rule, f.key("stiff-set-source"), "the stiff set is the stiff_states argument", f"stiffness is membership of the state's name in `{sname}`, not in the stiff_states argument", f.where())
+        ctx.check(bool(m.stiff_none_ok), rule, f.key("none-means-empty"), "stiff_states=None means no stiff state", "stiff_states=None is not mapped to the empty collection before membership is tested", f.where())
     elif len(stiff_sets) == 1:
         sname = stiff_sets.pop()
         src = m.pre.get(sname)
@@ -64,9 +70,9 @@ def run(ctx: Ctx):
         if ok:
             calls = [c for c in ast.walk(src) if isinstance(c, ast.Call)]
             ok = bool(calls) and all((dotted(c.func) or "") in ("set", "frozenset") for c in calls)
-        ctx.check(ok, "R07.a", f.key("stiff-set-source"), f"{sname} = set(stiff_states)", f"the stiff set `{sname}` is not built as set(stiff_states): {norm(src) if src is not None else None}", f.where())
+        ctx.check(ok, rule, f.key("stiff-set-source"), f"{sname} = set(stiff_states)", f"the stiff set `{sname}` is not built as set(stiff_states): {norm(src) if src is not None else None}", f.where())
         none_ok = any(k.startswith("if:stiff_states is None:stiff_states") for k in m.pre) or "stiff_states or" in (norm(src) if src is not None else "")
-        ctx.check(none_ok, "R07.a", f.key("none-means-empty"), "stiff_states=None means no stiff state", "stiff_states=None is not mapped to the empty collection before the set is built", f.where())
+        ctx.check(none_ok, rule, f.key("none-means-empty"), "stiff_states=None means no stiff state", "stiff_states=None is not mapped to the empty collection before the set is built", f.where())
     # rows: the hybrid builder is compared with its two siblings *of the same tree* (if generalized RL itself is
     # wrong that is C06's finding; C07 only asks that hybrid equals it on the stiff states and equals Euler elsewhere)
     euler = models.get(table.get("explicit_euler", ""), None)
@@ -89,14 +95,14 @@ def run(ctx: Ctx):
         dz = l.get("DIFF_ZERO")
         key = f.key(f"row::{sorted(l.items())}")
         if stiff is None:
-            ctx.fail("R07.a", key, f"{f.name} path [{r.raw_pred}] does not depend on the stiffness of the state", f.where(m.loop))
+            ctx.fail(rule, key, f"{f.name} path [{r.raw_pred}] does not depend on the stiffness of the state", f.where(m.loop))
             continue
         if stiff is False or dz is True:
             cases.add("euler")
             okk = r.store is not None and r.store[1] == euler_term
             ctx.check(
                 okk,
-                "R07.a",
+                rule,
                 key,
                 "non-stiff (or identically-zero derivative): the explicit Euler term",
                 f"{f.name} path [{r.raw_pred}] stores {te.show(r.store[1]) if r.store else None}; explicit_euler stores {te.show(euler_term)} for the same state",
@@ -107,28 +113,38 @@ def run(ctx: Ctx):
             rest = frozenset((k, v) for k, v in lset if not k.startswith("STIFF["))
             sib = grl_rows.get(rest)
             if sib is None:
-                ctx.fail("R07.a", key, f"{f.name} path [{r.raw_pred}]: generalized_rush_larsen has no path with the same conditions {sorted(rest)}; the stiff branch is not a copy of it", f.where(r.store[2]) if r.store else f.where(m.loop))
+                ctx.fail(rule, key, f"{f.name} path [{r.raw_pred}]: generalized_rush_larsen has no path with the same conditions {sorted(rest)}; the stiff branch is not a copy of it", f.where(r.store[2]) if r.store else f.where(m.loop))
                 continue
             same_store = r.store is not None and r.store[1] == sib.store[1]
             defs_h = [(a, b) for a, b, _ in r.emissions[: r.store[3]]] if r.store else []
             defs_g = [(a, b) for a, b, _ in sib.emissions[: sib.store[3]]]
             ctx.check(
                 same_store and defs_h == defs_g,
-                "R07.a",
+                rule,
                 f.key(f"clone::{sorted(l.items())}"),
                 "stiff branch is term-identical to generalized_rush_larsen (definitions and stored term)",
                 f"{f.name} path [{r.raw_pred}] emits {[te.show(a) + ' := ' + te.show(b) for a, b in defs_h]} and stores {te.show(r.store[1]) if r.store else None}; generalized_rush_larsen emits {[te.show(a) + ' := ' + te.show(b) for a, b in defs_g]} and stores {te.show(sib.store[1])} in the same case: the duplicated formula has drifted",
                 f.where(r.store[2]) if r.store else f.where(m.loop),
             )
         else:
-            ctx.fail("R07.a", key, f"{f.name} path [{r.raw_pred}]: a stiff state reaches the update without the identically-zero test of its own-state derivative", f.where(m.loop))
+            ctx.fail(rule, key, f"{f.name} path [{r.raw_pred}]: a stiff state reaches the update without the identically-zero test of its own-state derivative", f.where(m.loop))
     for c in ("euler", "rl"):
-        ctx.check(c in cases, "R07.a", f.key(f"has-{c}-case"), f"{c} case present", f"{f.name} has no {c} path", f.where())
+        ctx.check(c in cases, rule, f.key(f"has-{c}-case"), f"{c} case present", f"{f.name} has no {c} path", f.where())
     if grl:
         seen = {frozenset((k, v) for k, v in S.normalise_lits(r.lits) if not k.startswith("STIFF[")) for r in deriv_rows if dict(S.normalise_lits(r.lits)).get("DIFF_ZERO") is False and any(k.startswith("STIFF[") and v for k, v in S.normalise_lits(r.lits))}
         for k in grl_rows:
-            ctx.check(k in seen, "R07.a", f.key(f"covers::{sorted(k)}"), "every generalized-RL case has its hybrid counterpart", f"{f.name} has no stiff path for the generalized-RL case {sorted(k)}", f.where())
+            ctx.check(k in seen, rule, f.key(f"covers::{sorted(k)}"), "every generalized-RL case has its hybrid counterpart", f"{f.name} has no stiff path for the generalized-RL case {sorted(k)}", f.where())
 
+    return m, f, models, name
+
+
+def run(ctx: Ctx):
+    sm = ctx.sm
+    got = hybrid_table(ctx, "R07.a")
+    if got is None:
+        return
+    m, f, models, name = got
+    add = None
     ctx.rule("R07.b", "stiff_states reaches hybrid_rush_larsen only, from get_code through add_schemes", floor=4)
     add = sm.func("cli/utils.py", "add_schemes")
     common.check_scheme_kwargs(ctx, "R07.b", "stiff_states")
